@@ -95,7 +95,11 @@ CHECKS = {
              "cover_spec / cover_sound show that a returned cover is disjoint, made of observed sets, covers the universe, "
              "explains every observed set, and that the OR-of-ANDs gate built from it admits them (tie: the real function's "
              "answer is a model outcome and satisfies the clauses; process_missing_and_gates builds the model's gate). "
-             "NOT a proof about the whole function: pm4py's inductive miner and the OR inference are not modelled in Lean "
+             "The OR inference (check_is_or_operator / infer_or_gate_from_node) is modelled and its decision logic proved "
+             "sound over abstract children (or_inference_sound, or_test_spec); filter_defunct_or_gates and "
+             "process_missing_and_gates are modelled too, and on the REAL raw miner trees of the whole domain the real "
+             "post-processing returns an outcome of the Lean model, every outcome of which (every choice of max) Lean "
+             "judges sound / exact. NOT a proof about pm4py's inductive miner, whose raw output is taken as data "
              "(DESIGN.md §5 C06 explains why); the finite quantifier is discharged by exhaustive execution of the real "
              "code with a proved enumerator and proved deciders.",
         ref="DESIGN.md §5 C06",
